@@ -114,5 +114,5 @@ HintsSufficient == LET sc == ScnOf(g) IN
 Code(s, S) == CHOOSE i \in 1..Cardinality(S) : SetToSortSeq(S, LAMBDA a, b : TRUE)[i] = s
 Hash(x) == Code(x.l, Leaves) * 7 + Code(x.w1, Wraps) * 11 + Code(x.w2, Wraps) * 13 + Code(x.w3, Wraps) * 17 + x.lb * 19 + x.qlb * 23
            + (IF x.win = "instant" THEN 1 ELSE 2)
-EmitHint == IF Hash(g) % Mod = Seed % Mod THEN Emit(ScnOf(g)) ELSE TRUE
+EmitHint == IF Pick(Hash(g), 0, Mod) = Seed % Mod THEN Emit(ScnOf(g)) ELSE TRUE
 =============================================================================
